@@ -43,12 +43,12 @@ func ruleCatalogLocking(c *Ctx) {
 			for _, f := range rec.Type.Params.List {
 				for _, nm := range f.Names {
 					if strings.HasSuffix(typeShort(rec.Info.TypeOf(f.Type)), "levelFunc") {
-						lf = rec.Info.ObjectOf(nm)
+						lf = objOf(rec.Info, nm)
 					}
 				}
 			}
 		}
-		recv := rec.Info.ObjectOf(rec.Fn.Decl.Recv.List[0].Names[0])
+		recv := objOf(rec.Info, rec.Fn.Decl.Recv.List[0].Names[0])
 		call := func(sub, top ast.Node) bool {
 			cx, ok := sub.(*ast.CallExpr)
 			return ok && lf != nil && identObj(rec.Info, cx.Fun) == lf
@@ -107,7 +107,7 @@ func ruleCatalogLocking(c *Ctx) {
 	// addSubdir's only caller holds the write lock
 	c.checkDominated(rule, "(*catalog.Directory).addSubdir", map[string]string{"(*catalog.Directory).AddTimeBucket": "holds d.Lock()"}, "caller-holds helper")
 	if at := c.S(rule, "(*catalog.Directory).AddTimeBucket"); at != nil {
-		recv := at.Info.ObjectOf(at.Fn.Decl.Recv.List[0].Names[0])
+		recv := objOf(at.Info, at.Fn.Decl.Recv.List[0].Names[0])
 		r := at.Run(Query{Target: callPred(at, "(*catalog.Directory).addSubdir"), Barrier: func(sub, top ast.Node) bool {
 			o, ok := lockCall(at.Info, sub, "Lock")
 			return ok && o == recv
@@ -155,7 +155,7 @@ func ruleStructuralChangesSerialised(c *Ctx) {
 		if s == nil {
 			continue
 		}
-		recv := s.Info.ObjectOf(s.Fn.Decl.Recv.List[0].Names[0])
+		recv := objOf(s.Info, s.Fn.Decl.Recv.List[0].Names[0])
 		lock := func(sub, top ast.Node) bool {
 			o, ok := lockCall(s.Info, sub, "Lock")
 			return ok && o == recv
@@ -347,7 +347,7 @@ func ruleFixedSlotSingleWrite(c *Ctx) {
 	}
 	var fp types.Object
 	if s.Type.Params != nil && len(s.Type.Params.List) > 0 && len(s.Type.Params.List[0].Names) > 0 {
-		fp = s.Info.ObjectOf(s.Type.Params.List[0].Names[0])
+		fp = objOf(s.Info, s.Type.Params.List[0].Names[0])
 	}
 	writes := s.sites(func(sub, top ast.Node) bool { return methodOn(s.Info, sub, fp, "WriteAt", "Write") })
 	c.Floor(rule, s.Name, "write sites", len(writes), 1)
@@ -407,7 +407,7 @@ func ruleStreamMapGuarded(c *Ctx) {
 			n++
 			var root types.Object
 			if s.Fn != nil && s.Fn.Decl.Recv != nil && len(s.Fn.Decl.Recv.List[0].Names) > 0 {
-				root = s.Info.ObjectOf(s.Fn.Decl.Recv.List[0].Names[0])
+				root = objOf(s.Info, s.Fn.Decl.Recv.List[0].Names[0])
 			}
 			held, path := s.heldAt(root, site, true)
 			if held {
